@@ -105,7 +105,8 @@ SlotErr(t, st, s, e, at) ==
         <<e.ts = s.start, Err("StepTs", at, s.start, e.ts)>>,
         <<e.p = t.kinds[k].p, Err("StepParams", at, t.kinds[k].p, e.p)>>,
         <<e.h = st.hcur[k], Err("StepState", at, st.hcur[k], e.h)>>,
-        <<e.rngi = NA \/ e.rngi = st.nexec[k] + t.kinds[k].rng0, Err("StepRng", at, st.nexec[k] + t.kinds[k].rng0, e.rngi)>>,
+        <<e.rngi = NA \/ e.rngi = st.nexec[k] + t.kinds[k].rng0, Err("StepRng", at, st.nexec[k] + t.kinds[k].rng0, e.rngi)>> >>
+      post == <<
         <<\A a \in ins : [j \in 1..Len(lw[a]) |-> [seq |-> lw[a][j].seq, sent |-> lw[a][j].sent, recv |-> lw[a][j].recv]]
                          = [j \in 1..Len(rw[a]) |-> [seq |-> rw[a][j].seq, sent |-> rw[a][j].sent, recv |-> rw[a][j].recv]],
           Err("WindowAsScheduled", at, rw, lw)>>,
@@ -120,7 +121,9 @@ SlotErr(t, st, s, e, at) ==
                 <<\A a \in ins : NormLogWin(r.wins[a]) = lw[a], Err("MatchesAsync_Window", at, r.wins, lw)>>,
                 <<r.h_out = e.h_out, Err("MatchesAsync_Output", at, r.h_out, e.h_out)>> >>
               ELSE <<>>
-  IN FirstErr(base \o refc)
+  \* C10 pairs: the reference (the system with the static delay) is consulted before the implementation-shaped window clauses, so that a
+  \* run that agrees with the reference but not with ZohApply is told apart (model drift) from one that violates the property
+  IN FirstErr(IF "ref_first" \in DOMAIN t THEN base \o refc \o post ELSE base \o post \o refc)
 
 (* ---- one generation: its scheduled slots against the next |slots| log entries ---------------- *)
 (* ms: [st |-> machine state, lp |-> log pointer, err |-> error] *)
@@ -204,7 +207,8 @@ DoRS(override) ==
                  <<e.eps = T.eps, Err("StepEps", at, T.eps, e.eps)>>,
                  <<e.ts = supss.start, Err("StepTs", at, supss.start, e.ts)>>,
                  <<e.h = hcur[k], Err("StepState", at, hcur[k], e.h)>>,
-                 <<e.rngi = NA \/ e.rngi = nexec[k] + T.kinds[k].rng0, Err("StepRng", at, nexec[k] + T.kinds[k].rng0, e.rngi)>>,
+                 <<e.rngi = NA \/ e.rngi = nexec[k] + T.kinds[k].rng0, Err("StepRng", at, nexec[k] + T.kinds[k].rng0, e.rngi)>> >>
+         cs2 == IF override \/ lp >= Len(T.log) THEN <<>> ELSE <<
                  <<[a \in DOMAIN supss.wins |-> NormLogWin(e.wins[a])] = supss.wins, Err("ReadsRing", at, supss.wins, e.wins)>>,
                  <<\A a \in DOMAIN supss.wins : ScheduledOk(T, exec, a, supss.wins[a]), Err("ScheduledPayload", at, "payload of the scheduled sequence number", supss.wins)>>,
                  <<e.h_out = hn, Err("StepOutput", at, hn, e.h_out)>> >>
@@ -216,7 +220,7 @@ DoRS(override) ==
                     <<[a \in DOMAIN supss.wins |-> NormLogWin(r.wins[a])] = [a \in DOMAIN supss.wins |-> NormLogWin(e.wins[a])], Err("MatchesAsync_Window", at, r.wins, e.wins)>>,
                     <<r.h_out = e.h_out, Err("MatchesAsync_Output", at, r.h_out, e.h_out)>> >>
                  ELSE <<>>
-         er == FirstErr(cs \o refc)
+         er == FirstErr(IF "ref_first" \in DOMAIN T THEN cs \o refc \o cs2 ELSE cs \o cs2 \o refc)
      IN IF er # NoErr
         THEN err' = er /\ UNCHANGED <<tid, opi, step, hcur, nexec, ring, supss, exec, lp, fin>>
         ELSE /\ hcur' = [hcur EXCEPT ![k] = hn]
